@@ -453,6 +453,11 @@ func runTHRESH(c *Ctx) {
 	}
 	per := map[*ssa.Function]*fs{}
 	for _, fn := range P.Funcs {
+		if o := fn.Object(); o != nil {
+			if tf, isF := o.(*types.Func); isF && ir.InlinedSetters[tf.FullName()] {
+				continue // a pure setter: what it stores was judged where it is called (see ir/inline.go)
+			}
+		}
 		for _, b := range fn.Blocks {
 			for _, ins := range b.Instrs {
 				base, f, st, ok := mastFieldStore(ins)
@@ -523,7 +528,21 @@ func runTHRESH(c *Ctx) {
 		why := ""
 		gs := s.stores["growAfterSize"][0]
 		ss := s.stores["shrinkBelowSize"][0]
-		gb, _ := gs.Val.(*ssa.BinOp)
+		// `v := m.f; if guard { v /= bf }; m.f = v`: the stored value is a φ of the old value (no change) and the update —
+		// the same as updating under the guard
+		updateOf := func(v ssa.Value, field string) ssa.Value {
+			phi, ok := v.(*ssa.Phi)
+			if !ok || len(phi.Edges) != 2 {
+				return v
+			}
+			for i, e := range phi.Edges {
+				if mastFieldLoad(e, field) {
+					return phi.Edges[1-i]
+				}
+			}
+			return v
+		}
+		gb, _ := updateOf(gs.Val, "growAfterSize").(*ssa.BinOp)
 		if dir == 1 {
 			// grow·bf ; shrink ← old grow
 			if gb == nil || gb.Op != token.MUL || !mastFieldLoad(gb.X, "growAfterSize") || !mastFieldLoad(gb.Y, "branchFactor") {
@@ -535,7 +554,7 @@ func runTHRESH(c *Ctx) {
 				ok, why = false, "shrinkBelowSize reads growAfterSize after it was already multiplied"
 			}
 		} else {
-			sb, _ := ss.Val.(*ssa.BinOp)
+			sb, _ := updateOf(ss.Val, "shrinkBelowSize").(*ssa.BinOp)
 			if gb == nil || gb.Op != token.QUO || !mastFieldLoad(gb.X, "growAfterSize") || !mastFieldLoad(gb.Y, "branchFactor") {
 				ok, why = false, "growAfterSize is not divided by branchFactor"
 			}
